@@ -119,6 +119,8 @@ func (z *Z) inl(in []Inline) string {
 			sb.WriteString(v.S)
 		case Soft:
 			sb.WriteString(sp(z.s.Intn(2)) + "\n") // zero or one trailing space: still a soft break
+		case NearMiss:
+			sb.WriteString("\x00NM" + v.S)
 		case BS:
 			sb.WriteString("\\")
 			z.forceSpaceHard = true
@@ -159,6 +161,14 @@ func (z *Z) paraLines(in []Inline, extraOK bool) []ln {
 	var out []ln
 	for i, p := range parts {
 		ind := ""
+		if strings.HasPrefix(p, "\x00NM") {
+			// near-miss: five or more columns, so that even '>' without its optional space leaves four
+			p = strings.TrimLeft(p[3:], " ")
+			ind = sp(5 + z.s.Intn(3))
+			z.note("near-miss-line")
+			out = append(out, ln{s: ind + p, sc: len(ind)})
+			continue
+		}
 		if i == 0 {
 			ind = z.ind3(extraOK)
 		} else if coin(z.s, 1, 3) {
